@@ -53,6 +53,28 @@ theorem loopTail_jump (s : Seq) (nf : Bool) (he : s.loopEnabled = true) (hh : s.
   have h1 : ¬ (s.loop.loopsLeft < 1) := by omega
   simp [he, hh, hb, hc, hl, h1]
 
+/-- a jump back to the loop start restores the tempo that was in force there (a tempo change inside the loop body does not
+    leak into the next pass), and a jump to the begin of the song after a broken loop restores the begin tempo -/
+theorem loopTail_jump_restores_tempo (s : Seq) (nf : Bool) (he : s.loopEnabled = true) (hh : s.loopHooksOnly = false)
+    (hc : s.loop.loopsCount < 0 ∨ s.loop.loopsLeft ≥ 1) (hnf : nf = false ∨ s.loop.loopsCount < 0 ∨ s.loop.loopsLeft ≥ 1) :
+    (loopTail s nf).1.tempo = (if s.loop.temporaryBroken then s.beginTempo else s.loopBeginTempo) := by
+  unfold loopTail
+  have h1 : ¬ (nf = true ∧ s.loop.loopsCount ≥ 0 ∧ s.loop.loopsLeft < 1) := by
+    rintro ⟨a, b, c⟩
+    rcases hnf with h | h | h
+    · simp [h] at a
+    · omega
+    · omega
+  by_cases hb : s.loop.temporaryBroken = true
+  · have h2 : ¬ ((nf = true ∧ 0 ≤ s.loop.loopsCount) ∧ s.loop.loopsLeft < 1) := fun ⟨⟨a, b⟩, c⟩ => h1 ⟨a, b, c⟩
+    simp [he, hh, hb, h2]
+  · have hb' : s.loop.temporaryBroken = false := by simpa using hb
+    rcases hc with hc | hc
+    · have : ¬ (s.loop.loopsCount ≥ 0) := by omega
+      simp [he, hh, hb', hc, this]
+    · have : ¬ (s.loop.loopsLeft < 1) := by omega
+      simp [he, hh, hb', hc, this]
+
 /-- **the last pass runs on to the end of the song**: with no repetition left, arriving at the end of the song ends it -/
 theorem loopTail_last (s : Seq) (hc : s.loop.loopsCount ≥ 0) (hl : s.loop.loopsLeft < 1) : (loopTail s true).1.atEnd = true := by
   unfold loopTail
